@@ -346,6 +346,11 @@ func hookFor(kind string) ErrorHook {
 			w.WriteHeader(422)
 			return &sebufhttp.Error{Message: "hook422"}
 		}
+	case "status400-msg": // a 400 that is not a ValidationError
+		return func(w http.ResponseWriter, r *http.Request, err error) proto.Message {
+			w.WriteHeader(400)
+			return &sebufhttp.Error{Message: "hook400 not-a-validation-error"}
+		}
 	case "headers": // sets headers only
 		return func(w http.ResponseWriter, r *http.Request, err error) proto.Message {
 			w.Header().Set("X-Hook", "seen")
